@@ -8,10 +8,15 @@ from streams import sigjson
 
 TB = [
     "Lean 4.33 kernel; axioms allowed: propext, Classical.choice, Quot.sound (checked by #print axioms on every theorem)",
-    "FIELD-LEVEL model: JSON text, serde_json (parsing, number formatting, string escaping), niffler/gzip, the file system and "
-    "CPython pickle are trusted and not modelled; a document is the list of its objects with each known key absent / null / "
-    "wrong-type / value, keys in the order Serialize writes them; a sketch record failing KmerMinHash is assumed to fail the "
-    "other two variants of the untagged Sketch enum",
+    "two models of the reader, compared with each other on every document of the stream: FIELD-LEVEL (a document is the list of "
+    "its objects with each known key absent / null / wrong-type / value, keys in canonical order) and TEXT-LEVEL "
+    "(Model/JsonText.lean: lexer, error-stopping tree parser, serde's derived readers in document order -- any key order, "
+    "duplicates, defaults, map and sequence forms, the untagged Sketch enum incl. HyperLogLog and the recursion limit -- and the "
+    "compact printer with serde_json's escaping). serde_json (1.x, no optional features), niffler (2.x, gz only) and flate2 are "
+    "third-party: their behaviour is modelled for these versions (pinned by the translator from Cargo.lock / Cargo.toml) and "
+    "compared, not proved; inflating a gzip stream is done by the harness (zlib) and handed to the model; float values are not "
+    "modelled (the version token is kept; ryu's re-formatting is assumed for the tokens the generator uses); invalid UTF-8 is "
+    "not generated; the file system and CPython pickle (as a transport of the state tuples) are trusted",
     "md5 is not modelled: a sketch's cache holds the pre-image (ksize, mins) and the harness applies hashlib.md5; an md5sum "
     "string in a file is either the md5 of a pre-image the generator chose or an arbitrary string",
     "translator (harness/translators/sigjson.py): Serialize field list, TempSig field/type list, the `num` rule, molecule arms "
@@ -45,7 +50,13 @@ RULE = ("a case builds 1..5 signatures (DNA/protein/dayhoff/hp, k incl. 1 and 2^
         "to_mutable / to_frozen MinHash, FrozenMinHash, SourmashSignature and FrozenSourmashSignature; `odd` cases are hand-crafted "
         "parsable documents (unsorted / duplicate mins, misaligned or zero abundances, wrong md5sum, missing / null / wrong-type keys, "
         "molecule in other case, num and max_hash both set, out-of-range integers, NUL in names); `sniff` cases probe "
-        "_detect_input_type. non-trivial = some load returned a signature holding >= 2 hashes (or, for sniff cases, >= 3 different "
+        "_detect_input_type; `text` cases are generated and damaged JSON texts (any key order, duplicate / missing / unknown keys, "
+        "integers beyond 2^64-1, floats / negatives / leading zeros in integer positions, every escape form incl. surrogate pairs "
+        "and lone surrogates, raw control characters, white space, nesting around the recursion limit, sequence forms, "
+        "HyperLogLog sketches, sketches that panic before / after a later error, truncation, insertion, trailing characters, BOM) "
+        "loaded through every transport; `blob` cases are gzip (valid, truncated, with junk, nested, multi-member), bzip2 / xz / "
+        "zstd / zip bytes and files shorter than five bytes, by buffer and by path under misleading extensions. Every `save` "
+        "compares the rendered text of the model with the real bytes BYTE FOR BYTE. non-trivial = some load returned a signature holding >= 2 hashes (for text / blob cases: some load of a text of >= 20 bytes answered with signatures or an error; for sniff cases: >= 3 different "
         "answers); distinct = distinct op lists")
 
 
@@ -94,9 +105,9 @@ if __name__ == "__main__":
     if "--tier" in sys.argv:
         tier = sys.argv[sys.argv.index("--tier") + 1]
     tier = os.environ.get("VERIF_TIER") or tier
-    flavours = ["round", "odd", "round", "sniff", "round", "odd"]
+    flavours = ["round", "odd", "text", "sniff", "round", "text", "blob", "odd", "round", "text", "blob"]
     if tier == "thorough":
         # 11 entries: coprime to the 16 worker chunks, so the expensive `big` cases are spread evenly
-        flavours = ["round", "odd", "round", "sniff", "round", "odd", "round", "odd", "big", "round", "odd"]
+        flavours = ["round", "odd", "text", "sniff", "round", "text", "blob", "odd", "big", "text", "round", "odd", "text"]
     streamlib.run_property("C09", sigjson, flavours, sigjson.oracle, 1800, 24000, TB, AS, RULE,
                            nontrivial=sigjson.nontrivial, extra=extra, classify=sigjson.classify)
